@@ -606,34 +606,7 @@ func ruleC04Orchestrator(w *World, r *Report) {
 		})
 		r.check(found, "R04.2", mn, "uplink PDRs learn the UE address", w.Pos(mod.Pos()), "store found", "uplink PDRs no longer take the UE address of the session's downlink PDR")
 	}
-	// callers hand over all of the session's rules
-	for _, x := range []struct {
-		fn   string
-		root string
-		typ  int64
-	}{{"pfcpiface.(*UP4).sendCreate", "all", 1}, {"pfcpiface.(*UP4).sendUpdate", "all", 2}, {"pfcpiface.(*UP4).sendDelete", "deleted", 3}} {
-		f := w.Fn(P, x.fn)
-		calls := callsTo(f, mod)
-		r.check(len(calls) == 1, "R04.2", w.FuncName(f), "one forwarding-configuration pass", w.Pos(f.Pos()), "1 call", fmt.Sprintf("%d calls", len(calls)))
-		for _, c := range calls {
-			a := c.Common().Args
-			var roots []string
-			for _, v := range a[1:4] {
-				s := symOf(v)
-				name := "?"
-				for _, rt := range s.Roots() {
-					if p, ok := rt.(*ssa.Parameter); ok {
-						name = p.Name()
-					}
-				}
-				roots = append(roots, name+":"+s.String())
-			}
-			want := []string{x.root + ":PacketForwardingRules.pdrs", x.root + ":PacketForwardingRules.fars", x.root + ":PacketForwardingRules.qers"}
-			r.check(strings.Join(roots, " ") == strings.Join(want, " "), "R04.2", w.FuncName(f), "builder gets "+x.root+".pdrs/fars/qers", w.Pos(c.Pos()), strings.Join(roots, " "), "forwarding configuration built from ["+strings.Join(roots, " ")+"] (entries are rebuilt from partial rules: gates, QFI and TC of rules not in this message are lost)")
-			k, _ := constInt(a[4])
-			r.check(k == x.typ, "R04.2", w.FuncName(f), fmt.Sprintf("update type %d", x.typ), w.Pos(c.Pos()), fmt.Sprint(k), fmt.Sprintf("update type %d", k))
-		}
-	}
+	up4CallersHandAll(w, r, "R04.2")
 	// SendMsgToUPF dispatch
 	{
 		f := w.Fn(P, "pfcpiface.(*UP4).SendMsgToUPF")
@@ -959,6 +932,41 @@ func ruleC04Startup(w *World, r *Report, info *P4Info) {
 		for _, sc := range callsTo(tc, set) {
 			g := errGuarded(tc, call, call, func(i ssa.Instruction) bool { return i == sc.(ssa.Instruction) })
 			r.check(g, "R04.4", w.FuncName(tc), "connected only after a successful initialisation", w.Pos(sc.Pos()), "err checked", "the datapath is marked connected although initialisation failed")
+		}
+	}
+}
+
+// up4CallersHandAll: sendCreate/sendUpdate/sendDelete rebuild the entries from all of the
+// session's PDRs, FARs and QERs (not only those of the current message).
+func up4CallersHandAll(w *World, r *Report, rule string) {
+	P := r.Prop
+	mod := w.Fn(P, "pfcpiface.(*UP4).modifyUP4ForwardingConfiguration")
+	// callers hand over all of the session's rules
+	for _, x := range []struct {
+		fn   string
+		root string
+		typ  int64
+	}{{"pfcpiface.(*UP4).sendCreate", "all", 1}, {"pfcpiface.(*UP4).sendUpdate", "all", 2}, {"pfcpiface.(*UP4).sendDelete", "deleted", 3}} {
+		f := w.Fn(P, x.fn)
+		calls := callsTo(f, mod)
+		r.check(len(calls) == 1, rule, w.FuncName(f), "one forwarding-configuration pass", w.Pos(f.Pos()), "1 call", fmt.Sprintf("%d calls", len(calls)))
+		for _, c := range calls {
+			a := c.Common().Args
+			var roots []string
+			for _, v := range a[1:4] {
+				s := symOf(v)
+				name := "?"
+				for _, rt := range s.Roots() {
+					if p, ok := rt.(*ssa.Parameter); ok {
+						name = p.Name()
+					}
+				}
+				roots = append(roots, name+":"+s.String())
+			}
+			want := []string{x.root + ":PacketForwardingRules.pdrs", x.root + ":PacketForwardingRules.fars", x.root + ":PacketForwardingRules.qers"}
+			r.check(strings.Join(roots, " ") == strings.Join(want, " "), rule, w.FuncName(f), "builder gets "+x.root+".pdrs/fars/qers", w.Pos(c.Pos()), strings.Join(roots, " "), "forwarding configuration built from ["+strings.Join(roots, " ")+"] (entries are rebuilt from partial rules: gates, QFI and TC of rules not in this message are lost)")
+			k, _ := constInt(a[4])
+			r.check(k == x.typ, rule, w.FuncName(f), fmt.Sprintf("update type %d", x.typ), w.Pos(c.Pos()), fmt.Sprint(k), fmt.Sprintf("update type %d", k))
 		}
 	}
 }
